@@ -49,6 +49,7 @@ def generate(st):
         'index_name': sw.choice([None, None, None, 'date', 'obs', 'mixed']),
         'unordered': sw.random() < 0.3,        # a version need not list its observation dates in ascending order
         'stamp_offset': sw.choice([0, 0, 0, 0, 3600, 86400, 300 * 86400]),     # publishers may stamp ahead of the clock
+        'mirror': sw.random() < 0.25,          # a second, independent store receives every version right after the first
         'branching': sw.random() < 0.3,        # a second consumer keeps an earlier store object and catches up later
     }
     if cfg['stamp_offset']:
@@ -263,14 +264,32 @@ def execute(trace, ctx=None):
             res.probe('named-index')
         return s
 
+    mirror = {'store': None}
+
+    def logged(msg):
+        merge_log.append(msg)
+        if cfg.get('mirror'):
+            # an independent second store is fed the same versions, in alternation with the first
+            mirror['store'] = lib(lambda: bi_merge(mirror['store'], msg), 'bi_merge(second store, same version)')
+
     def lib(fn, what):
         try:
             return fn()
         except Exception as e:
             raise Violation('unexpected-exception', '%s raised %s: %s' % (what, type(e).__name__, str(e)[:200]), state['step'])
 
-    def do_read(T, what):
+    def do_read(T, what, reenter_T=None):
         state['reads'] += 1
+        if reenter_T is not None:
+            inner_ = []
+
+            def last_(v):
+                # the documented callable form of `what`; this one looks something up in the same store while it is being called
+                if not inner_:
+                    inner_.append(bi_read(store, asof=reenter_T, what=-1))
+                return v.iloc[-1]
+            what = last_
+            res.probe('what-callback-reads-the-store')
         Tl = T                     # the form the reader passes the as-of time in: datetime, pandas Timestamp or numpy datetime64
         if T is None:
             res.probe('read-without-asof')
@@ -300,7 +319,12 @@ def execute(trace, ctx=None):
         return out
 
     def check_read(T, what, tag):
-        got = do_read(T, what)
+        re_T = None
+        if what == -1 and T is not None and state['reads'] % 7 == 5 and model.stamps() and store is not None and len(store):
+            re_T = model.stamps()[0]
+        got = do_read(T, what, reenter_T=re_T)
+        if re_T is not None:
+            state['pending_plain'] = re_T
         if what == -1:
             exp = model.read_last(T)
             if set(got) != set(exp):
@@ -323,6 +347,8 @@ def execute(trace, ctx=None):
                 if g not in exp[i]:
                     raise Violation('first-value', '%s read what=0 asof %s date#%d: got %r, first published %r (log %s)'
                                     % (tag, T, i, got[i], exp[i], [(str(s), q, v) for s, q, v in model.log[i]]), state['step'])
+        if re_T is not None and state.pop('pending_plain', None) is not None:
+            check_read(re_T, -1, 'plain read after a read whose `what` callback read the store as of that time')
         return got
 
     def read_points():
@@ -418,7 +444,7 @@ def execute(trace, ctx=None):
                         res.probe('date-first-published-later')
                 model.publish(stamp, vals)
                 messages.append((msg, stamp, vals))
-                merge_log.append(messages[-1][0])
+                logged(messages[-1][0])
                 store = new_store
                 after_publication(stamp)
                 _check_store(store, model, k)
@@ -438,7 +464,7 @@ def execute(trace, ctx=None):
                 for stamp, vals, ser in ((t0, olds, so), (t1, news, sn)):
                     model.publish(stamp, vals)
                     messages.append((lib(lambda ser=ser, stamp=stamp: Bi(ser, stamp), 'Bi'), stamp, vals))
-                    merge_log.append(messages[-1][0])
+                    logged(messages[-1][0])
                     after_publication(stamp)
                 _check_store(store, model, k)
             elif kind == 'publish_many':
@@ -468,7 +494,7 @@ def execute(trace, ctx=None):
                                 res.probe('same-stamp-override')
                     model.publish(stamp, vals)
                     messages.append((b, stamp, vals))
-                    merge_log.append(messages[-1][0])
+                    logged(messages[-1][0])
                     after_publication(stamp)
                 _check_store(store, model, k)
             elif kind == 'republish_list':
@@ -483,7 +509,7 @@ def execute(trace, ctx=None):
                 for raw, vals in versions:
                     model.publish(stamp, vals)
                     messages.append((lib(lambda raw=raw: Bi(series(raw), stamp), 'Bi'), stamp, vals))
-                    merge_log.append(messages[-1][0])
+                    logged(messages[-1][0])
                     after_publication(stamp)
                 _check_store(store, model, k)
             elif kind == 'publish_swapped':
@@ -508,7 +534,7 @@ def execute(trace, ctx=None):
                 res.probe('correction-swapping-two-held-values')
                 model.publish(stamp, vals)
                 messages.append((msg, stamp, vals))
-                merge_log.append(messages[-1][0])
+                logged(messages[-1][0])
                 after_publication(stamp)
                 _check_store(store, model, k)
             elif kind == 'bad_merge':
@@ -539,7 +565,7 @@ def execute(trace, ctx=None):
                     continue
                 before = all_reads() if in_store else None
                 store = lib(lambda: bi_merge(store, msg), 'bi_merge(store, redelivered)')
-                merge_log.append(msg)
+                logged(msg)
                 res.fault('dup_delivery')
                 model.publish(stamp, vals)
                 after_publication(stamp)
@@ -616,6 +642,17 @@ def execute(trace, ctx=None):
                     for w in (-1, 0):
                         check_read(T, w, 'sweep')
                 lookahead_invariant()
+                if cfg.get('mirror') and mirror['store'] is not None:
+                    main = store
+                    store = mirror['store']
+                    try:
+                        _check_store(store, model, k)
+                        for T in read_points():
+                            for w in (-1, 0):
+                                check_read(T, w, 'second store fed the same versions in alternation')
+                    finally:
+                        store = main
+                    res.probe('second-store-fed-in-alternation')
         res.steps = len(trace['ops'])
     except Violation as v:
         res.violation = {'cls': v.cls, 'msg': v.msg, 'step': v.step}
